@@ -103,7 +103,10 @@ Inductive c26_case :=
 | Sig26 (kE : nat) (wire : bytes) (s2n : nat) (mu : mutation) (kD : nat) (ctxD : option bytes)
         (vbit : bool) (obs : obs12)
 | Role26 (a b : bytes) (obs_ab obs_ba : bool)
-| Ctx26 (ctx : bytes).
+| Ctx26 (ctx : bytes)
+(* the real link routine in the given role against a counterpart that
+   authenticates as the signalled peer (same = true) or as another identity *)
+| Link26 (offerer same : bool) (obs_established : bool).
 
 Definition c26_agree (c : c26_case) : bool :=
   match c with
@@ -129,4 +132,6 @@ Definition c26_agree (c : c26_case) : bool :=
   | Role26 a b oab oba =>
       Bool.eqb (is_offerer a b) oab && Bool.eqb (is_offerer b a) oba
   | Ctx26 ctx => bytes_eqb ctx webrtc_ctx
+  | Link26 offerer same est =>
+      Bool.eqb (link_accepted offerer [1] (if same then [1] else [2])) est
   end.
